@@ -29,6 +29,7 @@ import (
 	"math"
 	"math/big"
 	"reflect"
+	"regexp"
 	"sort"
 	"strconv"
 	"strings"
@@ -512,8 +513,8 @@ func numStream(r *vh.Rng, n int, cv *vh.Cases, sum *vh.Summary, idBase int) {
 				}
 			} else if err64 == nil {
 				// a negative integer literal below MinInt64 is reported as an error (not silently changed): C07/C15 territory
-				if lit.isPlainInt() && lit.neg {
-					sum.Dist["num.naked-negative-int-overflow-error"]++
+				if lit.isPlainInt() && lit.neg && hasNegIntBelowInt64(append(b, ' ')) {
+					sum.FailC("num", "naked:negative-int-below-int64", "a negative integer literal below -2^63 is rejected into interface{} (encoding/json returns the float64)", cj)
 				} else {
 					sum.FailC("num", cls+":naked", "interface{}: decode failed for a literal strconv accepts", cj)
 				}
@@ -1212,28 +1213,49 @@ func normStd(x interface{}) interface{} {
 	return x
 }
 
+// normNumText: canonical form of a JSON number text. Integers up to 2^53 in magnitude
+// compare exactly; everything else compares as the float64 it rounds to (a float64
+// written without fraction/exponent, e.g. 1e20 -> 100000000000000000000, must compare
+// equal to the float it came from, so large integer-looking texts go through ParseFloat).
 func normNumText(s string) interface{} {
 	if !strings.ContainsAny(s, ".eE") {
 		if bi, ok := new(big.Int).SetString(s, 10); ok {
-			return "int:" + bi.String()
+			if new(big.Int).Abs(bi).Cmp(big.NewInt(1<<53)) <= 0 {
+				return "int:" + bi.String()
+			}
 		}
 	}
 	f, _ := strconv.ParseFloat(s, 64)
-	if f == math.Trunc(f) && math.Abs(f) < 1e300 {
-		bf := new(big.Float).SetFloat64(f)
-		bi, _ := bf.Int(nil)
-		return "int:" + bi.String()
+	if f == math.Trunc(f) && math.Abs(f) <= 1<<53 {
+		return "int:" + strconv.FormatInt(int64(f), 10)
 	}
 	return fmt.Sprintf("float:%016x", math.Float64bits(f))
+}
+
+var negIntRe = regexp.MustCompile(`-[0-9]{19,20}`)
+
+// hasNegIntBelowInt64: the text holds a negative integer literal whose magnitude is in
+// (2^63, 2^64): our decoder rejects it into interface{} (finding F09-3)
+func hasNegIntBelowInt64(b []byte) bool {
+	for _, loc := range negIntRe.FindAllIndex(b, -1) {
+		if loc[1] < len(b) && (b[loc[1]] == '.' || b[loc[1]] == 'e' || b[loc[1]] == 'E' || (b[loc[1]] >= '0' && b[loc[1]] <= '9')) {
+			continue
+		}
+		u, err := strconv.ParseUint(string(b[loc[0]+1:loc[1]]), 10, 64)
+		if err == nil && u > 1<<63 {
+			return true
+		}
+	}
+	return false
 }
 
 // normOurs: what our decoder produced for interface{} destinations
 func normOurs(x interface{}) interface{} {
 	switch v := x.(type) {
 	case int64:
-		return "int:" + strconv.FormatInt(v, 10)
+		return normNumText(strconv.FormatInt(v, 10))
 	case uint64:
-		return "int:" + strconv.FormatUint(v, 10)
+		return normNumText(strconv.FormatUint(v, 10))
 	case float64:
 		return normNumText(strconv.FormatFloat(v, 'g', -1, 64))
 	case []interface{}:
@@ -1287,13 +1309,13 @@ func randTree(r *vh.Rng, depth int, o vh.Opts, to treeOpts) (v interface{}, want
 		if is == 'A' || (is == 'L' && (i > 1<<53 || i < -(1<<53))) {
 			return i, strconv.FormatInt(i, 10)
 		}
-		return i, "int:" + strconv.FormatInt(i, 10)
+		return i, normNumText(strconv.FormatInt(i, 10))
 	case 3:
 		u := r.U64() >> uint(r.Intn(64))
 		if is == 'A' || (is == 'L' && u > 1<<53) {
 			return u, strconv.FormatUint(u, 10)
 		}
-		return u, "int:" + strconv.FormatUint(u, 10)
+		return u, normNumText(strconv.FormatUint(u, 10))
 	case 4:
 		var f float64
 		switch r.Intn(3) {
@@ -1398,7 +1420,9 @@ func docStream(r *vh.Rng, n int, sum *vh.Summary) {
 		} else {
 			// our own decoder reads the same text back to the same document
 			var back interface{}
-			if _, e := decodeBytes(out, o, &back); e != nil || !reflect.DeepEqual(normOurs(back), normStd(x)) {
+			if _, e := decodeBytes(out, o, &back); e != nil && hasNegIntBelowInt64(out) {
+				sum.FailC("doc", "naked:negative-int-below-int64", "a negative integer literal below -2^63 is rejected into interface{} (encoding/json returns the float64)", cj)
+			} else if e != nil || !reflect.DeepEqual(normOurs(back), normStd(x)) {
 				sum.FailC("doc", "doc:tree:self", "our decoder reads our output differently from encoding/json", cj)
 			}
 		}
@@ -1408,14 +1432,18 @@ func docStream(r *vh.Rng, n int, sum *vh.Summary) {
 				x, e1 := stdDecodeNumber(sm)
 				var back interface{}
 				_, e2 := decodeBytes(sm, nil, &back)
-				if e1 != nil || e2 != nil || !reflect.DeepEqual(normOurs(back), normStd(x)) {
+				if e2 != nil && hasNegIntBelowInt64(sm) {
+					cj["std_out"] = string(sm)
+					sum.FailC("doc", "naked:negative-int-below-int64", "a negative integer literal below -2^63 is rejected into interface{} (encoding/json returns the float64)", cj)
+					delete(cj, "std_out")
+				} else if e1 != nil || e2 != nil || !reflect.DeepEqual(normOurs(back), normStd(x)) {
 					cj["std_out"] = string(sm)
 					sum.FailC("doc", "doc:tree:reverse", "encoding/json's output decodes here to a different value", cj)
 					delete(cj, "std_out")
 				}
 				if i%3 == 0 {
 					var back2 interface{}
-					if e3 := decodeIO(r, sm, nil, &back2); e3 != nil || !reflect.DeepEqual(normOurs(back2), normStd(x)) {
+					if e3 := decodeIO(r, sm, nil, &back2); (e3 != nil || !reflect.DeepEqual(normOurs(back2), normStd(x))) && !hasNegIntBelowInt64(sm) {
 						cj["std_out"] = string(sm)
 						sum.FailC("doc", "doc:tree:reverse:io", "encoding/json's output decodes here (io) to a different value", cj)
 						delete(cj, "std_out")
